@@ -428,7 +428,7 @@ MAY_FAIL_PAGES = 16384      # grows above 1 GiB may legitimately fail
 class Instance(object):
     """imports: dict (module bytes, name bytes) -> HostFunc | Memory | Table | GlobalCell | (Instance, funcidx)"""
 
-    def __init__(self, module, imports=None, tag=0, fuel=2000000, hazards=None, events=None):
+    def __init__(self, module, imports=None, tag=0, fuel=2000000, hazards=None, events=None, byteorder='little'):
         self.m = m = module
         self.tag = tag
         self.fuel = fuel
@@ -439,6 +439,7 @@ class Instance(object):
         self.table = None
         self.dropped = set()
         self.hz = hazards
+        self.bo = byteorder      # byte order of multi-byte accesses as the runtime under test implements it (C19)
         self.ev = events      # optional Counter of executed-path events (C03 classification)
         imports = imports or {}
         for mod, name, kind, desc in m.imports:
@@ -686,7 +687,7 @@ class Instance(object):
             elif op in LOADS:
                 _, t, nb, signed = LOADS[op]
                 a = self.ea(st.pop(), ins, nb)
-                v = int.from_bytes(self.mem.data[a:a + nb], 'little')
+                v = int.from_bytes(self.mem.data[a:a + nb], self.bo)
                 if signed and v >> (nb * 8 - 1):
                     v = (v - (1 << (nb * 8))) & (M32 if t == I32 else M64)
                 st.append(v)
@@ -696,7 +697,7 @@ class Instance(object):
                 if isinstance(v, NDNaN):
                     raise Indeterminate('store of nondeterministic NaN')
                 a = self.ea(st.pop(), ins, nb)
-                self.mem.data[a:a + nb] = (v & ((1 << (nb * 8)) - 1)).to_bytes(nb, 'little')
+                self.mem.data[a:a + nb] = (v & ((1 << (nb * 8)) - 1)).to_bytes(nb, self.bo)
             elif op == 'memory.size':
                 st.append(self.mem.pages)
             elif op == 'memory.grow':
@@ -725,19 +726,19 @@ class Instance(object):
             elif op in ATOMIC_LOADS:
                 _, t, nb = ATOMIC_LOADS[op]
                 a = self.ea(st.pop(), ins, nb, True)
-                st.append(int.from_bytes(self.mem.data[a:a + nb], 'little'))
+                st.append(int.from_bytes(self.mem.data[a:a + nb], self.bo))
             elif op in ATOMIC_STORES:
                 _, t, nb = ATOMIC_STORES[op]
                 v = st.pop()
                 a = self.ea(st.pop(), ins, nb, True)
-                self.mem.data[a:a + nb] = (v & ((1 << (nb * 8)) - 1)).to_bytes(nb, 'little')
+                self.mem.data[a:a + nb] = (v & ((1 << (nb * 8)) - 1)).to_bytes(nb, self.bo)
             elif op in ATOMIC_RMW:
                 _, t, nb, o = ATOMIC_RMW[op]
                 v = st.pop() & ((1 << (nb * 8)) - 1)
                 a = self.ea(st.pop(), ins, nb, True)
-                old = int.from_bytes(self.mem.data[a:a + nb], 'little')
+                old = int.from_bytes(self.mem.data[a:a + nb], self.bo)
                 new = {'add': old + v, 'sub': old - v, 'and': old & v, 'or': old | v, 'xor': old ^ v, 'xchg': v}[o]
-                self.mem.data[a:a + nb] = (new & ((1 << (nb * 8)) - 1)).to_bytes(nb, 'little')
+                self.mem.data[a:a + nb] = (new & ((1 << (nb * 8)) - 1)).to_bytes(nb, self.bo)
                 st.append(old)
             elif op in ATOMIC_CMPXCHG:
                 _, t, nb = ATOMIC_CMPXCHG[op]
@@ -745,9 +746,9 @@ class Instance(object):
                 repl = st.pop() & mask
                 exp = st.pop() & mask
                 a = self.ea(st.pop(), ins, nb, True)
-                old = int.from_bytes(self.mem.data[a:a + nb], 'little')
+                old = int.from_bytes(self.mem.data[a:a + nb], self.bo)
                 if old == exp:
-                    self.mem.data[a:a + nb] = repl.to_bytes(nb, 'little')
+                    self.mem.data[a:a + nb] = repl.to_bytes(nb, self.bo)
                 st.append(old)
             elif op == 'memory.atomic.notify':
                 st.pop()
@@ -760,7 +761,7 @@ class Instance(object):
                 a = self.ea(st.pop(), ins, nb, True)
                 if not self.mem.shared:
                     raise OutOfContract('wait on unshared memory')
-                cur = int.from_bytes(self.mem.data[a:a + nb], 'little')
+                cur = int.from_bytes(self.mem.data[a:a + nb], self.bo)
                 if cur != exp:
                     st.append(1)
                 elif timeout < 0:
